@@ -28,7 +28,7 @@ def classify(f):
 
 def run(ctx: vf.Ctx):
     ctx.uses_translators = set()
-    ctx.build(**BUILD)
+    ctx.build(props=["C04", "SameUnitary"] if (vf.COQ / "props" / "SameUnitary.v").exists() else ["C04"], **BUILD)
     ctx.rule = ('random editing histories (1..%d calls, width 1-6, radixes 2/3, gates of arity 1-3 incl. nested CircuitGates, '
                 'cycle indices in [-n-2, n+2], ~88%% valid arguments) on the real Circuit; after every call the grid is compared '
                 'with the extracted Coq model (fold included) and the per-qudit timelines with the list-of-cycles reference; plus a '
